@@ -24,6 +24,7 @@ func ChanSend[T any](ch chan<- T, v T) {
 		return
 	}
 	s.park(OpChan, uintptr(chanPtr(ch)), nil, nil, nil, nil, nil)
+	s.noteWork()
 	select {
 	case ch <- v:
 		return
@@ -47,6 +48,7 @@ func ChanRecv2[T any](ch <-chan T) (T, bool) {
 		return v, ok
 	}
 	s.park(OpChan, uintptr(chanPtr(ch)), nil, nil, nil, nil, nil)
+	s.noteWork()
 	select {
 	case v, ok := <-ch:
 		return v, ok
@@ -60,7 +62,7 @@ func ChanRecv2[T any](ch <-chan T) (T, bool) {
 // ChanClose is a rewritten close(ch).
 func ChanClose[T any](ch chan<- T) {
 	if s := simTask(); s != nil {
-		s.park(OpChan, uintptr(chanPtr(ch)), nil, nil, nil, nil, nil)
+		s.park(OpChanClose, uintptr(chanPtr(ch)), nil, nil, nil, nil, nil)
 		s.noteClosed(uintptr(chanPtr(ch)))
 	}
 	close(ch)
@@ -154,8 +156,9 @@ func selectImpl(hasDefault bool, cases []SelCase) (int, reflect.Value, bool) {
 		}
 	}
 	if hasDefault {
-		return -1, reflect.Value{}, false
+		return -1, reflect.Value{}, false // nothing happened: what a polling loop does
 	}
+	s.noteWork()
 	rc := make([]reflect.SelectCase, 0, n)
 	for _, c := range cases {
 		rc = append(rc, reflect.SelectCase{Dir: c.dir, Chan: c.ch, Send: c.send})
@@ -167,6 +170,7 @@ func selectImpl(hasDefault bool, cases []SelCase) (int, reflect.Value, bool) {
 
 //go:norace
 func (s *Sim) noteSelectReady(cases []SelCase, won int) {
+	s.noteWork()
 	for i, c := range cases {
 		if i == won || !c.ch.IsValid() || c.ch.IsNil() {
 			continue
@@ -223,3 +227,6 @@ func (it *ChanIter[T]) Next() bool {
 
 // Val returns the value received by Next.
 func (it *ChanIter[T]) Val() T { return it.v }
+
+//go:norace
+func (s *Sim) noteWork() { s.work++ }
